@@ -64,3 +64,28 @@ From TV Require gen.GameGen.
 (* the translated Position.winner reports exactly the outcome the property describes *)
 Theorem C02_source_winner_outcome : forall p, RoadSpec.wf_pos p -> forall r, RoadSpec.outcome p r <-> GameGen.winner p = Ok r.
 Proof. exact gen_winner_outcome. Qed.
+
+(* ---- _walk / is_road / has_road REGENERATED FROM THE SOURCE (gen/GameGen.v) and proved equal to the work-list model RoadPy.v, hence to the closure model and the declarative road verdict ---- *)
+From TV Require Import model.Tak model.Road model.PySem spec.Rules spec.MoveSpec.
+From TV Require Import proofs.Generator proofs.Invariant proofs.GameGenEq proofs.GameGenCor.
+From TV Require spec.RoadSpec model.RoadPy.
+(* _walk with the fuel the translator gives it, 5*size^2 + len(seeds) + 1 *)
+Theorem C02_source_walk_eq :
+  forall p seeds c horiz, shape p ->
+  GameGen._walk p seeds c horiz =
+  embed_fuel (RoadPy.walk_py (Z.to_nat (5 * size p * size p + zlen seeds + 1)) p seeds c horiz).
+Proof. exact gen_walk_eq. Qed.
+(* Position.has_road, translated (is_road, _walk, the four searches with short-circuit `or`): never out of fuel, no
+   IndexError, and the answer of the closure model - on every position with a size^2 board of size >= 1 *)
+Theorem C02_source_has_road_eq :
+  forall p, RoadSpec.wf_pos p -> GameGen.has_road p = Ok (Road.has_road p).
+Proof. exact gen_has_road_eq. Qed.
+(* Position.winner now calls the TRANSLATED has_road *)
+Theorem C02_source_winner_eq :
+  forall p, RoadSpec.wf_pos p -> GameGen.winner p = Ok (Road.winner p).
+Proof. exact gen_winner_eq. Qed.
+(* C02: the translated has_road answers the declarative road question (both roads -> the player who just moved ...) *)
+Theorem C02_source_has_road_verdict :
+  forall p, RoadSpec.wf_pos p ->
+  forall o, RoadSpec.road_verdict p o <-> GameGen.has_road p = Ok o.
+Proof. exact gen_has_road_verdict. Qed.
